@@ -1,5 +1,5 @@
 (* Lex/Quote.v — character-level scanners of ford/reader.py and ford/utils.py:
-   _contains_unterminated_string, the COM_RE / docmark regular expressions, quote_split.
+   _unterminated_quote, _match_docmark, the COM_RE / docmark regular expressions, quote_split.
    Executable definitions only. *)
 From Ford Require Import Base.Str.
 
@@ -11,7 +11,8 @@ Definition semi : ascii := ";"%char.
 Definition hash : ascii := "#"%char.
 Definition is_quote (c : ascii) : bool := Ascii.eqb c sq || Ascii.eqb c dq.
 
-(* ---- reader._contains_unterminated_string (as repaired: plain open/close toggling) ---- *)
+(* ---- reader._unterminated_quote (plain open/close toggling; returns the open delimiter) and its
+   wrapper _contains_unterminated_string ---- *)
 (* state: None = outside a literal, Some q = inside a literal opened by q *)
 Definition qstep (st : option ascii) (c : ascii) : option ascii :=
   if is_quote c then
@@ -43,20 +44,34 @@ Fixpoint first_bang_from (st : option ascii) (i : nat) (x : str) : option nat :=
   end.
 Definition first_bang (x : str) : option nat := first_bang_from None 0 x.
 
-(* _match_docmark(compile(mark), line, in_quote): start index of group 4 *)
-Definition match_mark (mark line : str) (in_quote : bool) : option nat :=
-  if in_quote then None else
+(* _match_docmark(pattern, line, open_quote), where open_quote = _unterminated_quote(linebuffer)
+   is the delimiter of a literal continued from the previous line (None: there is none).
+   If a literal is open and the first non-blank character of the line is not '!', the line is
+   blanked out up to and including the first occurrence of the delimiter (no occurrence: no match)
+   and the pattern is matched on that — blanks are neither quotes nor '!', so this is the scan
+   started inside the literal; otherwise (no literal open, or a comment line between the lines of
+   a continued literal) the pattern is matched on the line as it is.  Positions are those of the
+   original line. *)
+Definition bang_first (line : str) : bool :=
+  match lstrip line with c :: _ => Ascii.eqb c bang | [] => false end.
+Definition scan_start (line : str) (oq : option ascii) : option ascii :=
+  match oq with
+  | Some q => if bang_first line then None else Some q
+  | None => None
+  end.
+(* pattern = _compile_docmark(mark): start index of group 4 *)
+Definition match_mark (mark line : str) (oq : option ascii) : option nat :=
   match mark with
   | [] => None
   | _ =>
-    match first_bang line with
+    match first_bang_from (scan_start line oq) 0 line with
     | Some i => if starts_with (bang :: mark) (skipn i line) then Some i else None
     | None => None
     end
   end.
-(* _match_docmark(COM_RE, line, in_quote) *)
-Definition match_com (line : str) (in_quote : bool) : option nat :=
-  if in_quote then None else first_bang line.
+(* pattern = COM_RE *)
+Definition match_com (line : str) (oq : option ascii) : option nat :=
+  first_bang_from (scan_start line oq) 0 line.
 
 (* ---- utils.quote_split(sep, string) ----
    mode: 0 outside, 1 inside a double-quoted literal, 2 inside a single-quoted one; inside a literal a doubled quote is
